@@ -34,11 +34,31 @@ CHECKS = {
     text="For every formula helper shared by cnfgen and pbgen (all 32, with their option variants) and for every library generator with formula_class CNF and OPB, TLC compares variable count, variable names in order, and the truth value of both formulas on every assignment (<= 13/17 variables; candidate assignments beyond). The model-level reason (cardinality constraint = its clause blasting for all operators) is checked exhaustively by LinearMC.",
     note="Trusted: projection of clauses/constraints/labels, in-process cli() calls with mode='formula', TLC. Small parameters; named graphs and graph files.",
     ref="DESIGN.md §4 C08"),
+ "C06": dict(
+    technique="implementation-shaped TLA+ token state machine of the DIMACS reader plus a pure writer (DimacsIO.tla / DimacsText.tla) model-checked exhaustively by TLC; TLC-generated token paths rendered to concrete texts and replayed into CNF.from_file; real writer outputs and corrupted texts lexed and judged by TLC (JudgeDimacs.tla)",
+    text="TLC explores every token path of the reader machine up to 6 (quick) / 7 (thorough) symbols over comment, blank, 22 problem-line variants, integers -3..3 and a word (n <= 2) with invariants Accept => out = Denotation(whole text) and counts match and literals in range, NoDenotation => rejected, and the round trip Read(Write(F)) = F for all formulas with <= 2 variables and <= 3 clauses of width <= 2 under the four header/varnames options (including what line breaks in header fields and names expose). Every path of depth 5/6 is rendered into 3 concrete texts and read by the real CNF.from_file (outcome in TLC's allowed set, result = TLC's denotation). Hundreds of formulas x 4 options written by the real writer, and thousands of mutated/garbage texts read by the real reader, are judged by TLC. Bounded-exhaustive plus seeded sampling, not a proof for all texts.",
+    note="Trusted: the harness lexer (lines end at \\n, \\r\\n or \\r; Unicode-whitespace separated tokens; Python int() decides integers; first non-blank character c/p classifies a line), the path renderer (self-checked: lex(render(path)) = path), TLC. Reading choices: any 4-token line starting with p whose last two tokens are integers >= 0 is a problem line (lenient acceptance allowed, refusal always allowed); blank lines in writer output tolerated; cnfshuffle -i is not exercised.",
+    ref="DESIGN.md §4 C06"),
+ "C11": dict(
+    technique="implementation-shaped TLA+ state machine of the variable store (Formula.tla) with abstract and closed-form definitions of every group kind, model-checked exhaustively by TLC; TLC-generated behaviours (every shape in scope, all short interleavings, random walks) replayed into the real CNF and OPB classes with every observable compared with TLC's expected value after every call",
+    text="TLC checks on every reachable state of the store machine (all 1476 group shapes in scope after a gap / followed by another group; all interleavings of group creation, add_clause and update_variable_number to depth 3-5 over small alphabets) that the closed forms used by the group classes agree with the documented enumeration, that index->id and id->index are mutually inverse, that indices are in identifier order, that ranges are contiguous, disjoint and fresh, and that names are aligned. Every behaviour [gap; create shape], every history of depth 3 (thorough: 4) and hundreds to thousands of deeper random walks are replayed into cnfgen.CNF and OPB, comparing indices(), g(*index), to_index(+-id), labels, every wildcard / out-of-domain pattern of a probe universe, membership, len, number_of_variables, all_variable_labels and the varname lines of to_file with TLC's values after each call. Bounded-exhaustive in shape size and history depth.",
+    note="Trusted: TLC, the transcription of the group classes' documentation into Formula.tla, the harness' rendering of abstract labels through the format strings it passed, access to the singleton group through the protected list F._groups (skipped if absent). Acceptance choices (ValueError for out-of-domain full indices / identifiers as documented; ValueError-or-empty for out-of-range wildcard patterns; word-indexed groups may refuse wildcards; binary mapping with n=0 or m=0 may refuse; identifier order for patterns) are recorded in the evidence file.",
+    ref="DESIGN.md §4 C11"),
+ "C15": dict(
+    technique="TLA+ specification GraphCmd.tla (legality classes, Promise per construction, modifier and save predicates, reference constructions) model-checked by TLC (GraphCmdMC, 6/9 configs); trace validation: TLC (JudgeGraphCmd) judges recorded outcomes of the real argparse graph actions, CLI runs and library constructors, including intermediate graphs per modifier and saved files read back; random choices explored by seeds and a skewed random source",
+    text="The specification's closed forms and shape predicates are machine-checked against explicit constructions (named DAGs up to 7 vertices, grids/tori, all graphs up to 4 vertices for modifiers, bipartite up to 3x3). About 14k (quick) / 129k (thorough) recorded runs of make_graph_from_spec, cnfgen with graph arguments and the library constructors - every construction x argument menu around each documented bound x modifiers in several orders x save in every format x 20/200 seeds plus skewed random sources - are judged by TLC: outcome class (must succeed / may refuse / must refuse), Promise(constr,args,G), each modifier against the graph it actually received, saved file = graph handed on.",
+    note="Trusted: projection of graphs through the public API, wrappers around cnfgen.clitools.graph_args.modify_* (exit 2 if they disappear), TLC. Named-graph identity by isomorphism only up to 7 vertices and by invariants beyond; sampler distributions are not checked; library calls only with arguments the command line would let through.",
+    ref="DESIGN.md §4 C15"),
  "C16": dict(
     technique="implementation-shaped TLA+ state machine (Graphs.tla) model-checked exhaustively by TLC; TLC-generated behaviours replayed into the real classes with every view compared after every call",
     text="TLC explores every reachable state of the implementation-shaped graph machine (vertex counts 0..3/4, all arguments incl. invalid) with invariant ViewsAgree and the no-side-effect action property; every behaviour of depth 2 (3 thorough) and thousands of deeper random walks are replayed into Graph/DirectedGraph/BipartiteGraph, comparing all views and networkx conversions with TLC's expected abstract views after each step.",
     note="Trusted: the view accessors used by the replay harness, TLC. Bounded vertex counts and history depth.",
     ref="DESIGN.md §4 C16"),
+ "C20": dict(
+    technique="implementation-shaped TLA+ state machine of the documented solver bridge (Solver.tla) model-checked exhaustively by TLC (18 invariants, an action property on temporary files, termination); every terminal state exported by TLC (scenario rendered to concrete solver output + allowed outcome + leftover files) is replayed into the real CNF.solve()/is_satisfiable() against fake solver executables in a private PATH with an empty TMPDIR",
+    text="TLC explores every reachable state of the bridge machine over the bounded scenario scope (6 formulas incl. zero variables / empty clause / unused variables; the three conventions; all 11 table names + an unsupported one; cmd None/empty/name/name+options; sameas none/valid/unknown; installed, non-executable and decoy executables; every stdout skeleton of <=3 (thorough <=4) lines over 9 (11) line kinds with every cut of TLC-chosen real models over <=2 (3) v lines in 3 print orders; result-file contents; exec failure) and checks: no temp file left at any exit, right solver and interface, (True, w) => SAT and w = solver's literals sorted by variable and w satisfies F, (False, None) <=> UNSAT, no answer/failing/missing/unsupported => RuntimeError, unknown sameas => ValueError, is_satisfiable = fst(solve). Every scenario (9.2k quick / 98.7k thorough) is replayed into the real code and its result or exception class and the scratch TMPDIR are compared for equality with TLC's outcomes.",
+    note="Trusted: TLC; the shell templating of fake solvers and the projection of results / exception class names; the E2BIG trick as realisation of 'solver cannot be executed'. Assumptions: solvers are honest and speak the convention announced by the table or sameas; which installed solver answers when no cmd is given is left open; non-conforming output may be read leniently or refused with RuntimeError; SAT without a model for n>0 may give (True, []), (True, None) or RuntimeError.",
+    ref="DESIGN.md §4 C20"),
 }
 
 ALL = ["C%02d" % i for i in range(1, 21)]
